@@ -82,13 +82,17 @@ def run(tier, seed):
         for _ in range(600 if thorough else 120):
             dumps.append(gen_dump(rng))
         dumps += [b'', b'\0', START + b'INFO', START + b'INFO' + START + b'FANS', b'abc' + START + b'ERRL' + bytes(40)]
+        # a dump longer than 64 KiB (an ILOG region of empty entries, then whatever gen_dump gives): as a BMC-format file its four-digit
+        # address column wraps around
+        big = bytes(8 * (8192 + rng.randrange(1, 40))) + (gen_dump(rng) or START + b'INFO')
+        dumps.append(big)
         renders = []
         for d in dumps:
             did = rng.randrange(len(drawers))
             reqs.append('dump %d %d %s' % (did, did, tb(d)))
             meta.append(('dump', did, d))
-            if d and rng.random() < 0.5:
-                k, pad = rng.choice([1, 2]), rng.random() < 0.5
+            if d and (rng.random() < 0.5 or d is big):
+                k, pad = (1 if d is big else rng.choice([1, 2])), rng.random() < 0.5
                 reqs.append('render %d %d %s' % (k, int(pad), tb(d)))
                 meta.append(('render', did, d, k, pad))
         # dump files whose data bytes are the delimiter characters of the OTHER line format (':', '<', '>', blanks, hex digits):
